@@ -108,3 +108,17 @@ func init() {
 			{Name: "accept", Run: "^TestAcceptGenerated$", Checks: [2]int{1500, 20000}, Shards: [2]int{4, 16}},
 		}})
 }
+
+func init() {
+	reg(PropCfg{ID: "C13", Pkg: "c13", Level: "exploration",
+		Rule: "typed value generators (nested lists/objects/any-objects/options/ranges/scalars, depth <= 3 quick / 4 thorough, unicode strings, empty containers, finite floats) producing correlated pairs/triples (copy, single-difference mutant, permuted key order); oracles: IsEqual reflexive/symmetric/transitive and equal to the model's structural equality in both value libraries; Clone equal and state-disjoint under 1-12 step mutation histories checked against two independent model values (VM library; interpreter values have no Clone); TypeAwareUnmarshal(Marshal(v)) == v and the in-program to_json/parse_json round trip on both backends; both libraries display equal values as the same text; exhaustive small table of 416 near-equal pairs; non-trivial = type depth >= 2 or >= 2 elements; distinct by value content",
+		Jobs: []Job{
+			{Name: "table", Run: "^TestTableSmall$", Shards: [2]int{1, 2}},
+			{Name: "eq", Run: "^TestEq$", Checks: [2]int{10000, 300000}, Shards: [2]int{2, 8}},
+			{Name: "clone", Run: "^TestClone$", Checks: [2]int{10000, 200000}, Shards: [2]int{2, 8}},
+			{Name: "json", Run: "^TestJSON$", Checks: [2]int{10000, 300000}, Shards: [2]int{2, 8}},
+			{Name: "display", Run: "^TestDisplay$", Checks: [2]int{10000, 200000}, Shards: [2]int{2, 8}},
+			{Name: "jsonprog", Run: "^TestJSONProg$", Checks: [2]int{150, 1500}, Shards: [2]int{4, 8}},
+			{Name: "eqprog", Run: "^TestEqProg$", Checks: [2]int{150, 1500}, Shards: [2]int{4, 8}},
+		}})
+}
